@@ -591,6 +591,26 @@ def check_use_sites(prog: Program, rep: Report) -> None:
                     same = isinstance(rate, ast.Subscript) and norm(rate.slice) == idx and norm(ident) == f"{unit}.identifier"
                     rep.ob("R5.4-rate-of-same-unit", same, loc, call,
                            "the rate inserted for a unit must be the table entry with that unit's index")
+                # every unit of the factor is inserted, whatever the sign of its derivative: the lifting schemes need the positive
+                # derivatives as well (they shift the random position in inside-first / outside-first order, and give the ratio flow)
+                if loops:
+                    lp = loops[-1]
+                    it = RU.res(lp.iter)
+                    rate_names = {x.id for x in ast.walk(call.args[0]) if isinstance(x, ast.Name)} | {x.id for x in ast.walk(rate) if isinstance(x, ast.Name)}
+                    filt: List[str] = []
+                    for c_ in ast.walk(it):
+                        if isinstance(c_, ast.comprehension):
+                            filt.extend(norm(i_) for i_ in c_.ifs)
+                        if isinstance(c_, ast.Call) and norm(c_.func) == "filter":
+                            filt.append(norm(c_))
+                    from ..guards import path_conditions as _pc
+                    filt.extend(_pc(lp.body, call) or [])
+                    sign = [f_ for f_ in filt if any(tok in f_ for tok in ("< 0", "> 0", "<= 0", ">= 0", "0.0 <", "0.0 >", "0 <", "0 >"))]
+                    rep.ob("R5.4-every-unit-inserted", (False if sign else None) if filt else True, loc,
+                           f"insert loop over `{norm(it)[:140]}`" + (f" filtered by {filt}" if filt else ""),
+                           "every leaf unit of the factor must be inserted into the lifting scheme with its factor derivative; units with a "
+                           "derivative of the other sign are part of the scheme (they shift the random position and carry the flow), so a "
+                           "filter on the sign of the derivative changes which unit is lifted")
 
 
 def pairwise_balance(fn: ast.FunctionDef) -> Optional[Dict[str, int]]:
